@@ -2,6 +2,7 @@ package tgt
 
 import (
 	"fmt"
+	"io"
 	"net"
 	"os"
 	"strings"
@@ -259,3 +260,17 @@ func EncCache(es []CacheEntry, gw net.HardwareAddr) []byte {
 }
 
 var _ = scan.ErrIP
+
+// V4 is the number of an IPv4 address given in 4- or 16-byte form (0 when it is neither).
+func V4(ip []byte) uint32 {
+	a := net.IP(ip).To4()
+	if a == nil {
+		return 0
+	}
+	return uint32(a[0])<<24 | uint32(a[1])<<16 | uint32(a[2])<<8 | uint32(a[3])
+}
+
+// StringOpener opens a reader over a string.
+func StringOpener(s string) func() (io.ReadCloser, error) {
+	return func() (io.ReadCloser, error) { return io.NopCloser(strings.NewReader(s)), nil }
+}
